@@ -117,6 +117,10 @@ SPECS['C06'] = {
         dict(fn=H + 'c06.ob_dtime', kind='universal', timeout=(120, 300), replay=ENC,
              bounds='year 1900..2155, month 1..12, day 1..31, h/m/s full range; millisecond = K3', entry=['write_struct_dtime']),
         dict(fn=H + 'c06.reach_dtime', kind='reach', timeout=(60, 60), validate=ENC),
+        dict(fn=H + 'c06.ob_uvari_edges', kind='universal', timeout=(120, 120), replay=ENC, bounds='+-2 around every UVARI threshold (0, 127/128, 16383/16384, 2**30, 2**31, 2**32): enumeration', entry=['write_struct_uvari']),
+        dict(fn=H + 'c06.reach_uvari_edges', kind='reach', timeout=(60, 60), validate=ENC),
+        dict(fn=H + 'c06.ob_fixed_int_edges', kind='universal', timeout=(300, 300), replay=ENC, bounds='+-1 around every range edge of the six integer codes: enumeration', entry=['write_struct']),
+        dict(fn=H + 'c06.ob_obname_edges', kind='universal', timeout=(300, 300), replay=ENC, bounds='origin +-1 around every UVARI threshold x copy, name length 254..256: enumeration', entry=['write_struct_obname']),
         dict(fn=K + 'k1_uvari', kind='smt', engine='smt', timeout=(300, 300), replay=ENC, bounds='all integers (LIA)', entry=['write_struct_uvari']),
         dict(fn=K + 'k3_dtime_ms', kind='smt', engine='smt', timeout=(600, 600), replay=ENC, bounds='0<=microsecond<=999999, IEEE-754 double',
              entry=['write_struct_dtime']),
@@ -204,8 +208,8 @@ SPECS['C16'] = {
         dict(fn=H + 'c16.ob_noformat_text', kind='universal', timeout=(120, 300), replay=R + 'noformat:replay_noformat',
              bounds='symbolic ASCII text, len<=3', entry=['NoFormatFrameData._make_body_bytes']),
         dict(fn=H + 'c16.reach_noformat_text', kind='reach', timeout=(60, 60), validate=R + 'noformat:replay_noformat'),
-        dict(fn=H + 'c09.ob_order', kind='universal', timeout=(400, 900), shards=(8, 8), replay=R + 'order:replay_order',
-             bounds='24 orders of (origin, channel+frame, zones, no-format+3 payloads over 2 objects) x named sets x 1..2 origins (finite, exhaustive)',
+        dict(fn=H + 'c09.ob_order', kind='universal', timeout=(600, 1200), shards=(12, 12), replay=R + 'order:replay_order',
+             bounds='24 orders of (origin, channel+frame, zones, no-format+3 payloads over 2 objects) x named sets x 5 origin configurations (one/two origins, named/unnamed origin sets) (finite, exhaustive)',
              entry=['DLISFile.generator', 'LogicalFile.add_no_format_frame_data']),
         dict(fn=H + 'c09.reach_order', kind='reach', timeout=(120, 120), validate=R + 'order:replay_order'),
     ],
@@ -247,6 +251,7 @@ SPECS['C04'] = {
 }
 
 ID = R + 'identity:'
+PLAIN_LATE = R + 'plain:replay_plain'
 SPECS['C07'] = {
     'functions': ['EFLRItem.__init__', 'EFLRItem._compute_copy_number', 'EFLRSet.register_item', 'EFLRSet.get_all_eflr_items',
                   'EFLRItem.obname', 'write_struct_obname', 'write_struct_objref', 'Attribute.get_as_bytes',
@@ -273,6 +278,8 @@ SPECS['C07'] = {
              bounds='two origins with explicit/default references <=40000; a zone before/between/after with explicit/default reference',
              entry=['LogicalFile.add_origin', 'LogicalFile.next_available_origin_ref']),
         dict(fn=H + 'c07.reach_origins', kind='reach', timeout=(120, 120), validate=ID + 'replay_origins'),
+        dict(fn=H + 'c07.ob_copy_origin', kind='universal', timeout=(400, 900), replay=PLAIN_LATE, bounds='three same-type objects: every equality pattern of names x explicit origin references 0..3 (0 = none) x origin reference 0..3 x objects added before / after the origin', entry=['EFLRItem._compute_copy_number', 'LogicalFile.add_origin']),
+        dict(fn=H + 'c07.reach_copy_origin', kind='reach', timeout=(120, 120), validate=PLAIN_LATE),
         dict(fn=H + 'c07.ob_across_sets', kind='universal', timeout=(120, 120), replay=ID + 'replay_across_sets',
              bounds='two objects of one type: same/different name x named/unnamed sets, F6 region excluded', entry=['EFLRItem._compute_copy_number']),
         dict(fn=H + 'c07.reach_across_sets', kind='reach', timeout=(60, 60)),
@@ -307,8 +314,8 @@ SPECS['C09'] = {
                 'quick tier: sequence numbers up to 99999 (thorough: 10**10-1)'],
     'selftests': ['venv:vf.stubs.selftest:selftest_rope_struct'],
     'obligations': [
-        dict(fn=H + 'c09.ob_order', kind='universal', timeout=(400, 900), shards=(8, 8), replay=R + 'order:replay_order',
-             bounds='24 orders of (origin(s), channel+frame, zones, no-format + 3 payloads) x named sets x 1..2 origins (finite, exhaustive)',
+        dict(fn=H + 'c09.ob_order', kind='universal', timeout=(600, 1200), shards=(12, 12), replay=R + 'order:replay_order',
+             bounds='24 orders of (origin(s), channel+frame, zones, no-format + 3 payloads) x named sets x 5 origin configurations (one/two origins, named/unnamed origin sets) (finite, exhaustive)',
              entry=['DLISFile.generator']),
         dict(fn=H + 'c09.reach_order', kind='reach', timeout=(120, 120), validate=R + 'order:replay_order'),
     ] + _pair('c09', 'file_header', (600, 1800), 'sequence number 1..99999 (thorough 10**10-1), symbolic ASCII id len<=2, origin<2**30',
@@ -330,13 +337,13 @@ SPECS['C17'] = {
     'selftests': [],
     'obligations': _pair('c17', 'context', (60, 120), 'initial flag x nesting 1..3 x exception at any level x decorator form', ['high_compatibility_mode'])
       + _pair('c17', 'name_rule', (120, 300), 'symbolic str, len<=3 (any code point), mode on/off', ['validate_string'])
-      + _pair('c17', 'name_sites', (120, 120), '3 entry points x 6 example names x mode (finite)', ['EFLRItem.__init__', 'StorageUnitLabel.__init__', 'FileHeaderItem.__init__'])
+      + _pair('c17', 'name_sites', (120, 120), '3 entry points x 10 example names (incl. trailing newline, NUL, tab) x mode (finite)', ['EFLRItem.__init__', 'StorageUnitLabel.__init__', 'FileHeaderItem.__init__'])
       + _pair('c17', 'soft_enum', (60, 120), '4 enumerations x member/value/non-member x mode', ['ValidatorEnum.make_converter'])
       + _pair('c17', 'enum_sites', (120, 120), 'units (attribute value and units), index type, equipment type, location x mode', ['Attribute.units'])
       + _pair('c17', 'incidence', (120, 300), '2 channels x 2 frames: all incidence matrices x mode', ['LogicalFile._check_channels_assigned_to_frames'])
       + _pair('c17', 'file_set_numbers', (120, 120), '1..3 origins x mode', ['OriginItem.__init__'])
       + [dict(fn=H + 'c17.ob_raise_or_warn', kind='universal', timeout=(60, 60), replay=PLAIN, bounds='mode on/off', entry=['raise_or_warn']),
-         dict(fn=K + 'k5_hc_regex', kind='smt', engine='smt', timeout=(300, 300), replay=PLAIN,
+         dict(fn=K + 'k5_hc_regex', kind='smt', engine='smt', timeout=(300, 300), replay=R + 'misc:replay_name_rule',
               bounds='strings of ANY length: HC_STRING_PATTERN (fullmatch) == [A-Z0-9_-]+ as regular languages (z3 4.8, z3 5.1, cvc5)',
               entry=['validate_string'])],
 }
@@ -356,22 +363,22 @@ NP_OUT = ['numeric bit patterns through numpy cast / astype / tobytes kernels, N
           'real HDF5 I/O (h5py.File is a dict-like stub)']
 NP_SELF = ['venv:vf.stubs.selftest:selftest_rope_struct', 'venv:vf.stubs.selftest:selftest_npstub']
 
-_window = _pair('c11', 'window', (300, 600), 'every source kind (dict, structured copy path, structured fast path, HDF5); total<=1000 rows; '
+_window = _pair('c11', 'window', (300, 600), 'every source kind (dict, structured copy path, structured fast path, HDF5, structured with permuted fields); total<=1000 rows; '
                 'any window 0<=from<to<=total or open; any chunk 0<=start<=stop<=n_rows or open', ['SourceDataWrapper.load_chunk', 'NumpyDataWrapper.load_chunk'],
-                replay=D + 'replay_window', validate=D + 'replay_window', shards=(4, 4)) + [
+                replay=D + 'replay_window', validate=D + 'replay_window', shards=(5, 5)) + [
     dict(fn=H + 'c11.wit_window_fast_path_offset', kind='witness', timeout=(60, 60), validate=D + 'replay_window')]
 _iteration = _pair('c11', 'iteration', (300, 900), 'every source kind; 1..6 (thorough 40) rows from any offset; input chunk 1..n+2 or None',
                    ['MultiFrameData.__next__', 'SourceDataWrapper.make_chunked_generator'], replay=D + 'replay_iteration',
-                   validate=D + 'replay_iteration', shards=(4, 4))
+                   validate=D + 'replay_iteration', shards=(5, 5))
 _tiling = _pair('c11', 'tiling', (120, 300), 'n<=40 (thorough 10**6), chunk<=n+20 or None, n//chunk<=6', ['SourceDataWrapper.make_chunked_generator'],
                 replay=D + 'replay_tiling', validate=D + 'replay_tiling')
 _fdata = _pair('c11', 'fdata_body', (300, 600), 'every source kind x 8 dtypes x both byte orders x scalar/width<=4096 x frame number<2**30',
-               ['FrameData._make_body_bytes'], replay=D + 'replay_fdata_body', validate=D + 'replay_fdata_body', shards=(4, 4)) + [
+               ['FrameData._make_body_bytes'], replay=D + 'replay_fdata_body', validate=D + 'replay_fdata_body', shards=(5, 5)) + [
     dict(fn=H + 'c11.wit_fdata_bigendian_2d', kind='witness', timeout=(60, 60), validate=D + 'replay_fdata_body')]
 _descr = _pair('c11', 'descriptors', (300, 600), 'every source kind x 8 dtypes x cast/no cast x width 0..2**20 x user dimension / element limit given or not, 1..2**20',
                ['ChannelItem.set_dimension_and_repr_code_from_data', 'ChannelItem._set_dimension_from_data', 'ChannelItem._set_repr_code_from_data',
                 'ChannelItem._compare_element_limit_vs_dimension', 'ChannelItem._run_checks_and_set_defaults', 'ChannelItem._set_cast_dtype'],
-               replay=D + 'replay_descriptors', validate=D + 'replay_descriptors', shards=(4, 4))
+               replay=D + 'replay_descriptors', validate=D + 'replay_descriptors', shards=(5, 5))
 _reject = _pair('c11', 'window_reject', (120, 300), 'every source kind; from 0..1005, to 0..total', ['SourceDataWrapper.__init__'],
                 replay=D + 'replay_window_reject', validate=D + 'replay_window_reject')
 _rowcount = _pair('c11', 'rowcount', (120, 300), 'dict and HDF5 sources; row counts 1..50, different; either dataset first; F15 region excluded', ['SourceDataWrapper.__init__'],
@@ -383,6 +390,8 @@ _datadict = _pair('c11', 'data_dict', (120, 300), 'inline + passed data, extra a
                   replay=D + 'replay_data_dict', validate=D + 'replay_data_dict')
 _taint = _pair('c11', 'taint', (120, 300), 'every source kind x 1..3 rows x chunk 1..4 x cast x byte order', ['FrameData._make_body_bytes', 'SourceDataWrapper.load_chunk'],
                replay=D + 'replay_taint', validate=D + 'replay_taint')
+_twofiles = _pair('c11', 'two_files_data', (300, 600), 'two logical files, inline data under equal / different dataset names, 1..4 rows each, a shared dict passed or not',
+                  ['LogicalFile._make_multi_frame_data'], replay=D + 'replay_two_files_data', validate=D + 'replay_two_files_data')
 _twofr = _pair('c11', 'two_frames', (300, 600), 'two frames, 1..4 rows each, chunk 1..5', ['MultiFrameData.__next__'],
                replay=D + 'replay_two_frames', validate=D + 'replay_two_frames')
 
@@ -403,7 +412,7 @@ SPECS['C19'] = {'functions': DATA_FUNCS + ['LogicalFile._make_multi_frame_data']
                                      'numpy\'s documented view/copy contract (in-place operations the stub models: slice/field '
                                      'assignment, byteswap(inplace), sort, fill, |=, +=, *=); replays compare real arrays and the '
                                      'HDF5 file bit-for-bit before/after on each witness'],
-                'selftests': NP_SELF, 'obligations': _taint + _datadict}
+                'selftests': NP_SELF, 'obligations': _taint + _datadict + _twofiles}
 
 
 def _find(pid, name):
@@ -423,7 +432,8 @@ SPECS['C12'] = {
     'obligations': _rowcount + _badsrc + _reject
     + _pair('c12', 'completeness', (120, 120), 'origin / channel / frame present or not (all combinations)', ['LogicalFile._check_completeness'])
     + _pair('c12', 'long_names', (120, 300), 'object name, units, IDENT value, set name of 0..70000 characters', ['write_struct_ident'])
-    + _find('C06', 'ob_fixed_int') + _find('C06', 'reach_fixed_int') + _find('C06', 'ob_uvari') + _find('C06', 'ob_ident_len')
+    + _find('C06', 'ob_fixed_int') + _find('C06', 'reach_fixed_int') + _find('C06', 'ob_uvari') + _find('C06', 'ob_uvari_edges')
+    + _find('C06', 'ob_fixed_int_edges') + _find('C06', 'ob_obname_edges') + _find('C06', 'ob_ident_len')
     + _find('C06', 'ob_ascii_len') + _find('C06', 'ob_obname') + _find('C01', 'ob_sul_numbers') + _find('C09', 'ob_file_header_reject')
     + _find('C04', 'ob_item'),
 }
@@ -460,7 +470,7 @@ _idem = _pair('c14', 'idempotent', (400, 1500), 'every attribute signature (thor
     dict(fn=H + 'c14.wit_idempotent_param_values', kind='witness', timeout=(60, 60), validate=PLAIN)]
 _rejected = _pair('c14', 'rejected', (300, 600), 'every item class x 4 rejection kinds (unknown keyword, bad origin type, bad attribute part, bad name type) x later same/other name',
                   ['EFLRItem.__init__', 'EFLRSet.register_item', 'EFLRItem._compute_copy_number'], shards=(8, 8))
-_rejapi = _pair('c14', 'rejected_api', (120, 300), 'add_zone(bad domain), add_parameter(bad reference), add_channel(bad cast dtype), add_channel(bad data)',
+_rejapi = _pair('c14', 'rejected_api', (120, 300), 'add_zone(bad domain), add_parameter(bad reference), add_channel(bad cast dtype: str / 0 / empty / False), add_channel(bad data)',
                 ['LogicalFile.add_zone', 'LogicalFile.add_parameter', 'LogicalFile.add_channel'], replay=ST + 'replay_rejected_api', validate=ST + 'replay_rejected_api')
 _isol = _pair('c14', 'isolation', (400, 900), 'two logical files: zone set names from {None,A,B} (different), 6 interleavings of origin/zone additions, explicit/default second origin reference',
               ['LogicalFile.add_origin', 'LogicalFile.add_zone', 'DLISFile.generator', 'EFLRSetsDict.get_or_make_set'], replay=ST + 'replay_isolation', validate=ST + 'replay_isolation') + [
@@ -495,7 +505,7 @@ SPECS['C18'] = {
     'stubs': NP_STUBS, 'cuts': CUTS, 'assumptions': CH_ASSUME,
     'outside': ['more than two frames / two logical files', 'F12 region: the same (set class, set name) in two logical files is one shared set object: known finding'],
     'selftests': NP_SELF,
-    'obligations': _isol + _twofr,
+    'obligations': _isol + _twofr + _twofiles,
 }
 
 SPECS['C05'] = {
